@@ -383,6 +383,8 @@ func collLen(v *Val) int {
 	return n
 }
 
+var stringTails = []string{"", "\\", "\",[", "}],{", " \u00e9\\\\", "\\\""}
+
 // genValue builds the value GEN produces for an output of type t from n.
 func genValue(p *Program, t *T, n int64, tag string) *Val {
 	return genSized(p, t, n, n, tag)
@@ -397,7 +399,9 @@ func genSized(p *Program, t *T, n, size int64, tag string) *Val {
 	case TFloat:
 		return Num(strconv.FormatInt(n, 10) + ".5")
 	case TString:
-		return Str(tag + strconv.FormatInt(n, 10))
+		// text that is awkward for anything scanning JSON by hand: a trailing
+		// backslash, quotes, commas and brackets, non-ASCII
+		return Str(tag + strconv.FormatInt(n, 10) + stringTails[int(n%int64(len(stringTails))+int64(len(stringTails)))%len(stringTails)])
 	case TFile, TPath, TFiletype:
 		return Str("/data/" + tag + strconv.FormatInt(n, 10))
 	case TBool:
